@@ -1210,11 +1210,21 @@ class Exec(object):
 
     # -- statements that may fail after part of their work ----------------------
 
-    def matches(self, names):
-        """Do all values and the existence of the arrays `names` agree with the model (no verdict)?"""
+    def matches(self, comp, k):
+        """
+        Does the engine show the model state after k units of the statement: all values, the existence of
+        the arrays it names and of the scalars that were not there before it (no verdict)? Arrays that
+        unit k+1 would dimension by reference may exist or not (resync follows the engine there).
+        """
         m, d = self.m, self.d
+        m.restore(comp.states[k])
+        before = comp.states[0]
+        free = set(comp.plans[k].ctx.auto) if k < len(comp.plans) else ()
+        names = [n for n in comp.names if n not in free]
         for name in m.sc:
             if d.get(b(name)) != m.get_value({'n': name, 'i': None}):
+                return False
+            if name not in before[0] and self.ev('VARPTR(%s)' % name) is None:
                 return False
         for name in m.ar:
             if d.get(b(name + '(')) != nested(m, name):
@@ -1264,8 +1274,7 @@ class Exec(object):
             if err in (7, 14):
                 cands = []
                 for k in range(done, -1, -1):
-                    m.restore(comp.states[k])
-                    if self.matches(comp.names):
+                    if self.matches(comp, k):
                         cands.append(k)
                 if not cands:
                     m.restore(comp.states[done])
@@ -1301,8 +1310,7 @@ class Exec(object):
                 # unspecified: whether a list is checked for syntax before its first unit runs; GW-BASIC and
                 # PC-BASIC run the units as they parse them. Any prefix of the units is accepted.
                 for k in range(done, -1, -1):
-                    m.restore(comp.states[k])
-                    if self.matches(comp.names):
+                    if self.matches(comp, k):
                         done = k
                         break
                 else:
